@@ -31,6 +31,7 @@ Definition visit_kw (k : collector) (kw : option str * expr) : cres ((option str
 
 Lemma visit_call k p f args kws :
   visit k (ECall p f args kws) =
+  if negb (forallb kw_named kws) then Err (ErrUnsupported p) else
   bindc (mapMc (visit k) args) (fun ras =>
   bindc (mapMc (visit_kw k) kws) (fun rks =>
   bindc (visit k f) (fun rf =>
@@ -38,10 +39,10 @@ Lemma visit_call k p f args kws :
         List.concat (map snd ras) ++ List.concat (map snd rks) ++ snd rf)))).
 Proof. reflexivity. Qed.
 
-Lemma visit_convert k : forall e, map_cres fst (visit k e) = convert false e.
+Lemma visit_convert k : forall e, map_cres fst (visit k e) = convert e.
 Proof.
   induction e using expr_ind2.
-  - cbn [visit convert]. rewrite <- (mapMc_map_fst (visit k) (convert false) vs H).
+  - cbn [visit convert]. rewrite <- (mapMc_map_fst (visit k) (convert) vs H).
     destruct (mapMc (visit k) vs); reflexivity.
   - destruct op; [|reflexivity]. cbn [visit convert]. rewrite <- IHe1, <- IHe2.
     destruct (visit k e1) as [[? ?]|]; cbn; [|reflexivity]. destruct (visit k e2) as [[? ?]|]; reflexivity.
@@ -50,15 +51,15 @@ Proof.
     inversion H as [|? ? Hc _]; subst. rewrite <- IHe, <- Hc.
     destruct (visit k e) as [[? ?]|]; cbn; [|reflexivity]. destruct (visit k c0) as [[? ?]|]; reflexivity.
   - cbn. destruct (named_constant id); reflexivity.
-  - reflexivity.
+  - cbn. destruct (negb (const_plain c)); reflexivity.
   - cbn [visit convert]. rewrite <- IHe. destruct (visit k e) as [[? ?]|]; reflexivity.
-  - cbn [visit convert]. rewrite <- (mapMc_map_fst (visit k) (convert false) es H).
+  - cbn [visit convert]. rewrite <- (mapMc_map_fst (visit k) (convert) es H).
     destruct (mapMc (visit k) es); reflexivity.
-  - cbn [visit convert]. rewrite <- (mapMc_map_fst (visit k) (convert false) es H).
+  - cbn [visit convert]. rewrite <- (mapMc_map_fst (visit k) (convert) es H).
     destruct (mapMc (visit k) es); reflexivity.
-  - rewrite visit_call, convert_call. cbn [andb].
-    rewrite <- (mapMc_map_fst (visit k) (convert false) args H), <- IHe.
-    assert (Hk : map_cres (map fst) (mapMc (visit_kw k) kws) = mapMc (conv_kw false) kws).
+  - rewrite visit_call, convert_call. destruct (negb (forallb kw_named kws)); [reflexivity|].
+    rewrite <- (mapMc_map_fst (visit k) (convert) args H), <- IHe.
+    assert (Hk : map_cres (map fst) (mapMc (visit_kw k) kws) = mapMc (conv_kw) kws).
     { apply mapMc_map_fst. clear - H0. induction H0 as [|[n v] t Hv _ IH]; constructor; [|exact IH].
       cbn in *. rewrite <- Hv. destruct (visit k v) as [[? ?]|]; reflexivity. }
     rewrite <- Hk.
@@ -68,10 +69,10 @@ Proof.
   - reflexivity.
 Qed.
 
-Lemma visit_ok_convert k e t ents : visit k e = Ok (t, ents) -> convert false e = Ok t.
+Lemma visit_ok_convert k e t ents : visit k e = Ok (t, ents) -> convert e = Ok t.
 Proof. intros H. rewrite <- (visit_convert k e), H. reflexivity. Qed.
 
-Lemma visit_is_ok k e : is_ok (visit k e) = is_ok (convert false e).
+Lemma visit_is_ok k e : is_ok (visit k e) = is_ok (convert e).
 Proof. rewrite <- (visit_convert k e). destruct (visit k e); reflexivity. Qed.
 
 (* ------------------------------------------------------------------------------------------- *)
@@ -84,39 +85,39 @@ Ltac conv_inv H :=
          | match ?x with _ => _ end = _ => destruct x
          end; try discriminate.
 
-Lemma convert_name_inv strict v id :
-  convert strict v = Ok (TName id) -> exists p, v = EName p id /\ named_constant id = None.
+Lemma convert_name_inv v id :
+  convert v = Ok (TName id) -> exists p, v = EName p id /\ named_constant id = None.
 Proof.
   intros H. destruct v; cbn [convert] in H; try (conv_inv H; fail).
   destruct (named_constant id0) eqn:E; inversion H; subst. eauto.
 Qed.
 
-Lemma convert_attr_inv strict v u a :
-  convert strict v = Ok (TAttr u a) -> exists p v' ap, v = EAttribute p v' a ap /\ convert strict v' = Ok u.
+Lemma convert_attr_inv v u a :
+  convert v = Ok (TAttr u a) -> exists p v' ap, v = EAttribute p v' a ap /\ convert v' = Ok u.
 Proof.
   intros H. destruct v; cbn [convert] in H; try (conv_inv H; fail).
-  destruct (convert strict v) eqn:E; cbn in H; inversion H; subst. eauto.
+  destruct (convert v) eqn:E; cbn in H; inversion H; subst. eauto.
 Qed.
 
-Lemma is_name_agree strict n v tv :
-  named_constant (lit n) = None -> convert strict v = Ok tv -> is_name tv n = is_ename v n.
+Lemma is_name_agree n v tv :
+  named_constant (lit n) = None -> convert v = Ok tv -> is_name tv n = is_ename v n.
 Proof.
   intros Hn H. destruct v; try (cbn [is_ename]; destruct tv; try reflexivity;
-    destruct (convert_name_inv strict _ _ H) as [p' [Hv _]]; discriminate).
+    destruct (convert_name_inv _ _ H) as [p' [Hv _]]; discriminate).
   cbn [convert] in H. cbn [is_ename]. destruct (named_constant id) eqn:E; inversion H; subst; cbn [is_name]; [|reflexivity].
   destruct (str_eqb id (lit n)) eqn:Es; [|reflexivity]. apply str_eqb_eq in Es. subst. congruence.
 Qed.
 
-Lemma classify_agree strict k v tv a ap :
-  convert strict v = Ok tv -> classify k tv a ap = classify_ast k v a ap.
+Lemma classify_agree k v tv a ap :
+  convert v = Ok tv -> classify k tv a ap = classify_ast k v a ap.
 Proof.
   intros H. unfold classify, classify_ast.
-  rewrite !(fun n Hn => is_name_agree strict n v tv Hn H) by reflexivity.
+  rewrite !(fun n Hn => is_name_agree n v tv Hn H) by reflexivity.
   destruct k; try reflexivity.
   destruct (is_ename v "rec" || is_ename v "newRec"); [reflexivity|]. destruct (is_ename v "user"); [reflexivity|].
   destruct tv; try (destruct v; try reflexivity; cbn [convert] in H; conv_inv H; fail).
-  destruct (convert_attr_inv strict _ _ _ H) as [p [v' [ap' [-> Hv']]]].
-  rewrite (is_name_agree strict "user" v' tv (eq_refl) Hv'). reflexivity.
+  destruct (convert_attr_inv _ _ _ H) as [p [v' [ap' [-> Hv']]]].
+  rewrite (is_name_agree "user" v' tv (eq_refl) Hv'). reflexivity.
 Qed.
 
 Lemma new_attr_pos r k tv a p1 p2 : new_attr r (classify k tv a p1) a = new_attr r (classify k tv a p2) a.
@@ -159,15 +160,15 @@ Proof.
     destruct (visit k c0) as [r2|] eqn:E2; cbn in Hr; [|discriminate].
     inversion Hr; subst. cbn. rewrite (IHe r1 eq_refl), (Hc r2 eq_refl), app_nil_r. reflexivity.
   - cbn in Hr. destruct (named_constant id); inversion Hr; reflexivity.
-  - inversion Hr; reflexivity.
+  - cbn in Hr. destruct (negb (const_plain c)); inversion Hr; reflexivity.
   - cbn [visit collect] in *. destruct (visit k e) as [[tv ev]|] eqn:E1; cbn in Hr; [|discriminate].
     inversion Hr; subst. cbn [snd fst]. pose proof (IHe (tv, ev) eq_refl) as Hc. cbn [snd] in Hc. rewrite Hc. f_equal.
-    apply (classify_agree false). exact (visit_ok_convert k e tv ev E1).
+    apply classify_agree. exact (visit_ok_convert k e tv ev E1).
   - cbn [visit collect] in *. destruct (mapMc (visit k) es) as [rs|] eqn:E; cbn in Hr; [|discriminate].
     inversion Hr; subst. cbn. exact (concat_map_snd_collect _ _ es rs H E).
   - cbn [visit collect] in *. destruct (mapMc (visit k) es) as [rs|] eqn:E; cbn in Hr; [|discriminate].
     inversion Hr; subst. cbn. exact (concat_map_snd_collect _ _ es rs H E).
-  - rewrite visit_call in Hr. cbn [collect].
+  - rewrite visit_call in Hr. cbn [collect]. destruct (negb (forallb kw_named kws)); [discriminate|].
     destruct (mapMc (visit k) args) as [ras|] eqn:Ea; cbn in Hr; [|discriminate].
     destruct (mapMc (visit_kw k) kws) as [rks|] eqn:Ek; cbn in Hr; [|discriminate].
     destruct (visit k e) as [rf|] eqn:Ef; cbn in Hr; [|discriminate].
@@ -297,39 +298,39 @@ Lemma kw_named_map {A B} (g : A -> B) (kws : list (option str * A)) :
   forallb kw_named (map (fun kw => match kw with (n, v) => (n, g v) end) kws) = forallb kw_named kws.
 Proof. induction kws as [|[n v] t IH]; cbn; [reflexivity|]. rewrite IH. reflexivity. Qed.
 
-Lemma rename_commutes_lemma strict k r : forall e,
-  convert strict (rename_ast k r e) = map_cres (rename_tree k r) (convert strict e).
+Lemma rename_commutes_lemma k r : forall e,
+  convert (rename_ast k r e) = map_cres (rename_tree k r) (convert e).
 Proof.
   induction e using expr_ind2.
   - cbn [rename_ast convert]. rewrite (mapMc_map_commute _ _ (rename_tree k r) vs H).
-    destruct (mapMc (convert strict) vs); reflexivity.
+    destruct (mapMc (convert) vs); reflexivity.
   - destruct op; [|reflexivity]. cbn [rename_ast convert]. rewrite IHe1, IHe2.
-    destruct (convert strict e1); cbn; [|reflexivity]. destruct (convert strict e2); reflexivity.
-  - destruct op; [|reflexivity]. cbn [rename_ast convert]. rewrite IHe. destruct (convert strict e); reflexivity.
+    destruct (convert e1); cbn; [|reflexivity]. destruct (convert e2); reflexivity.
+  - destruct op; [|reflexivity]. cbn [rename_ast convert]. rewrite IHe. destruct (convert e); reflexivity.
   - cbn [rename_ast convert]. destruct ops as [|op [|? ?]]; try reflexivity.
     destruct cs as [|c0 [|? ?]]; try reflexivity.
     inversion H as [|? ? Hc _]; subst. cbn [map]. rewrite IHe, Hc.
-    destruct (convert strict e); cbn; [|reflexivity]. destruct (convert strict c0); reflexivity.
+    destruct (convert e); cbn; [|reflexivity]. destruct (convert c0); reflexivity.
   - cbn. destruct (named_constant id); reflexivity.
-  - cbn. destruct (strict && negb (const_plain c)); reflexivity.
-  - cbn [rename_ast convert]. rewrite IHe. destruct (convert strict e) as [tv|] eqn:E; cbn; [|reflexivity].
-    rewrite <- (classify_agree strict k e tv a ap E), (new_attr_pos r k tv a ap 0). reflexivity.
+  - cbn. destruct (negb (const_plain c)); reflexivity.
+  - cbn [rename_ast convert]. rewrite IHe. destruct (convert e) as [tv|] eqn:E; cbn; [|reflexivity].
+    rewrite <- (classify_agree k e tv a ap E), (new_attr_pos r k tv a ap 0). reflexivity.
   - cbn [rename_ast convert]. rewrite (mapMc_map_commute _ _ (rename_tree k r) es H).
-    destruct (mapMc (convert strict) es); reflexivity.
+    destruct (mapMc (convert) es); reflexivity.
   - cbn [rename_ast convert]. rewrite (mapMc_map_commute _ _ (rename_tree k r) es H).
-    destruct (mapMc (convert strict) es); reflexivity.
+    destruct (mapMc (convert) es); reflexivity.
   - cbn [rename_ast]. rewrite !convert_call, kw_named_map.
-    destruct (strict && negb (forallb kw_named kws)); [reflexivity|].
+    destruct (negb (forallb kw_named kws)); [reflexivity|].
     rewrite (mapMc_map_commute _ _ (rename_tree k r) args H), IHe.
-    assert (Hk : mapMc (conv_kw strict) (map (fun kw => match kw with (n, v) => (n, rename_ast k r v) end) kws)
+    assert (Hk : mapMc (conv_kw) (map (fun kw => match kw with (n, v) => (n, rename_ast k r v) end) kws)
                  = map_cres (map (fun kw => match kw with (n, v) => (n, rename_tree k r v) end))
-                            (mapMc (conv_kw strict) kws)).
+                            (mapMc (conv_kw) kws)).
     { apply mapMc_map_commute. clear - H0. induction H0 as [|[n v] t Hv _ IH]; constructor; [|exact IH].
-      cbn in *. rewrite Hv. destruct (convert strict v); reflexivity. }
+      cbn in *. rewrite Hv. destruct (convert v); reflexivity. }
     rewrite Hk.
-    destruct (mapMc (convert strict) args); cbn; [|reflexivity].
-    destruct (mapMc (conv_kw strict) kws); cbn; [|reflexivity].
-    destruct (convert strict e); reflexivity.
+    destruct (mapMc (convert) args); cbn; [|reflexivity].
+    destruct (mapMc (conv_kw) kws); cbn; [|reflexivity].
+    destruct (convert e); reflexivity.
   - reflexivity.
 Qed.
 
@@ -425,8 +426,8 @@ Qed.
 (* ------------------------------------------------------------------------------------------- *)
 (* process_renames on formulas that do not parse, and when there is nothing to rename. *)
 
-Lemma process_renames_rejected repaired k r formula dollars e :
-  is_ok (convert false e) = false -> process_renames repaired k r formula true dollars (Some e) = PRText formula.
+Lemma process_renames_rejected k r formula dollars e :
+  is_ok (convert e) = false -> process_renames k r formula true dollars (Some e) = PRText formula.
 Proof.
   intros H. unfold process_renames. cbn [negb]. rewrite <- (visit_is_ok k) in H. destruct (visit k e); [discriminate|reflexivity].
 Qed.
